@@ -59,7 +59,7 @@ impl<B: BaseFut> ToElements<B> for GenPub<B> {
             out.extend(col.iter().map(|v| B::from_int(*v)));
         }
         for a in &s.aux {
-            out.push(B::from(((a.kind == AuxKind::Product) as u32) + 2 * a.main_col as u32 + 1000 * a.rand.map(|r| r as u32 + 1).unwrap_or(0)));
+            out.push(B::from(((a.kind == AuxKind::Product) as u32) + 2 * a.main_col as u32 + 1000 * a.rand.map(|r| r as u32 + 1).unwrap_or(0) + 100000 * a.pow as u32));
         }
         for a in &s.assertions {
             out.push(B::from(a.kind as u32 + 4 * a.col as u32));
@@ -115,7 +115,7 @@ impl<B: BaseFut> Air for GenAir<B> {
                     if cy.is_empty() { TransitionConstraintDegree::new(b) } else { TransitionConstraintDegree::with_cycles(b, cy) }
                 })
                 .collect();
-            let aux: Vec<_> = spec.aux.iter().map(|a| TransitionConstraintDegree::new(if a.kind == AuxKind::Product { 2 } else { 1 })).collect();
+            let aux: Vec<_> = spec.aux.iter().map(|a| TransitionConstraintDegree::new(if a.kind == AuxKind::Product { 1 + a.pow } else { 1 })).collect();
             (main, aux, spec.assertions.len(), spec.aux.len())
         };
         let exemptions = if mismatch { 1 } else { spec.exemptions };
@@ -203,7 +203,7 @@ impl<B: BaseFut> Air for GenAir<B> {
             };
             let m: E = mcur[a.main_col].into();
             result[k] = match a.kind {
-                AuxKind::Product => next[k] - cur[k] * (m + r),
+                AuxKind::Product => next[k] - cur[k] * (m + r).exp((a.pow as u32).into()),
                 AuxKind::Sum => next[k] - cur[k] - r * m,
             };
         }
